@@ -817,4 +817,9 @@ def cleanCallB : Call → Bool
 
 def cleanCallsB (calls : List (Call × Nat)) : Bool := calls.all (fun x => cleanCallB x.1)
 
+/-- the hypotheses of `Props.C16.bar_width_current_config` on the configuration IN FORCE at a call of a
+run with setters (after `set_bar_width` / the character setters called before it): single bar
+characters, a bar width that is a binary64 integer -/
+def barHypB (e : CEvent) : Bool := singleCharsB e.cfg && barWidthOkB e.cfg
+
 end Clikit.Progress
